@@ -558,6 +558,9 @@ _BIN = {'mul': 'Mul', 'div': 'Div', 'mod': 'Mod', 'add': 'Add', 'sub': 'Sub',
         'match': 'Match', 'notmatch': 'NotMatch', 'in': 'In', 'notin': 'NotIn'}
 
 
+AST_PLACEHOLDERS = False
+
+
 def const_ast(v):
     """AST of a literal value the way the parser builds it: negative numbers are Neg(Constant)."""
     from beanquery.parser import ast
@@ -576,6 +579,8 @@ def to_ast_expr(e, params=None):
     if k == 'lit':
         return const_ast(e.value)
     if k == 'param':
+        if AST_PLACEHOLDERS:
+            return ast.Placeholder('' if e.name is None else e.name)
         # AST route: inline the value (placeholders need parse positions)
         return const_ast(e.value)
     if k == 'un':
@@ -599,8 +604,11 @@ def to_ast_expr(e, params=None):
     if k == 'sub':
         return ast.Subscript(to_ast_expr(e.args[0]), e.name)
     if k == 'subq':
-        return to_ast(e.q)
+        return to_ast(e.q, _ALIAS_ALL[-1])
     raise ValueError(k)
+
+
+_ALIAS_ALL = [True]
 
 
 def _key_ast(k):
@@ -615,6 +623,15 @@ def _key_ast(k):
 def to_ast(q, alias_all=True):
     """Build the beanquery AST of a Query. Every target gets an alias (its printed
     text) when alias_all, because an AST without parse positions has no source text."""
+    from beanquery.parser import ast
+    _ALIAS_ALL.append(alias_all)
+    try:
+        return _to_ast(q, alias_all)
+    finally:
+        _ALIAS_ALL.pop()
+
+
+def _to_ast(q, alias_all):
     from beanquery.parser import ast
     if q.star:
         targets = ast.Asterisk()
@@ -656,3 +673,56 @@ def target_name(t):
     if t.expr.kind == 'col':
         return t.expr.name
     return to_text_expr(t.expr)
+
+
+# ---------------------------------------------------------------------------
+# BALANCES / JOURNAL / PRINT
+
+class Stmt:
+    """BALANCES [AT f] [FROM ...] [WHERE ...] | JOURNAL [account] [AT f] [FROM ...] | PRINT [FROM ...]"""
+    __slots__ = ('kind', 'summary_func', 'from_', 'where', 'account')
+
+    def __init__(self, kind, summary_func=None, from_=None, where=None, account=None):
+        self.kind = kind
+        self.summary_func = summary_func
+        self.from_ = from_
+        self.where = where
+        self.account = account
+
+    def key(self):
+        return (self.kind, self.summary_func, self.from_.key() if self.from_ else None,
+                self.where.key() if self.where is not None else None, self.account)
+
+    def params(self):
+        return []
+
+
+def stmt_text(st, style=MINIMAL):
+    sp = style.sp
+    if isinstance(st, Query):
+        return to_text(st, style)
+    out = [style.kw(st.kind.upper())]
+    if st.kind == 'journal' and st.account is not None:
+        out.append(lit_text(st.account, style))
+    if st.summary_func is not None and st.kind != 'print':
+        out.append(style.kw('AT') + sp() + style.ident(st.summary_func))
+    if st.from_ is not None:
+        out.append(style.kw('FROM') + sp() + from_text(st.from_, style))
+    if st.where is not None and st.kind == 'balances':
+        out.append(style.kw('WHERE') + sp() + to_text_expr(st.where, style))
+    return sp().join(out)
+
+
+def stmt_ast(st):
+    from beanquery.parser import ast
+    if isinstance(st, Query):
+        return to_ast(st, alias_all=False)
+    f = st.from_
+    from_clause = None
+    if f is not None:
+        from_clause = ast.From(to_ast_expr(f.expr) if f.expr is not None else None, f.open, f.close, f.clear or None)
+    if st.kind == 'balances':
+        return ast.Balances(st.summary_func, from_clause, to_ast_expr(st.where) if st.where is not None else None)
+    if st.kind == 'journal':
+        return ast.Journal(st.account, st.summary_func, from_clause)
+    return ast.Print(from_clause)
